@@ -7,7 +7,7 @@
    real daemons (harness zz_verif_c07_test.go: the manager dies before its k-th call for every k): partial. *)
 From Coq Require Import ZArith NArith Bool List.
 From Mysync Require Import Gtid.Interval Gtid.GtidSet Pure.Quorum Base.Prog Base.ProgFacts Base.Hoare Base.Config
-  Procs.NodeOps Procs.ActiveNodes Procs.Switchover Procs.Manager Proofs.SwitchoverProofs Proofs.OptimizationProofs Proofs.ManagerProofs.
+  Procs.NodeOps Procs.ActiveNodes Procs.Switchover Procs.Manager Proofs.SwitchoverProofs Proofs.MasterLast Proofs.OptimizationProofs Proofs.ManagerProofs.
 Import ListNotations.
 Open Scope Z_scope.
 
@@ -23,16 +23,31 @@ Theorem C07_no_promotion_without_lock_rechecks_on_any_crash_prefix : forall cfg 
 Proof. intros cfg env sw mem tr o k H. eapply safe_on_every_crash_prefix; [apply switchover_lock_rechecks|exact H]. Qed.
 Print Assumptions C07_no_promotion_without_lock_rechecks_on_any_crash_prefix.
 
-(* the request survives the crash: the only calls that remove or rewrite it are the bookkeeping of
-   FinishSwitchover / FailSwitchover; until then a dying manager has only issued calls that leave 'switch'
-   alone, so the next manager finds it (with started_at / started_by from StartSwitchover) *)
-Theorem C07_timed_out_request_is_kept : forall cfg env m cs active master sw tr o,
-  sw_initiated_at sw <> 0 ->
-  runs (handle_switchover cfg env m cs active master sw) tr o ->
-  forall e0 tr', tr = e0 :: tr' -> c_switchover_timeout cfg < now_val e0 - sw_initiated_at sw ->
-  exists d, switch_writes tr = [d] /\ exists t, ev_call d = DcsSet PSwitch (VSwitch (with_result sw false t (sw_run_count sw + 1))).
-Proof. exact timed_out_request_stays_pending. Qed.
-Print Assumptions C07_timed_out_request_is_kept.
+(* "recorded master updated last": in every run of performSwitchover the write of the master key is the
+   last call, it is preceded by no other write of that key, and it names the host whose SET read_only=0
+   was answered OK earlier in the same run *)
+Theorem C07_recorded_master_written_last : forall cfg env sw mem tr o,
+  runs (perform_switchover cfg env sw mem) tr o ->
+  forall t1 e t2, tr = t1 ++ e :: t2 -> is_master_write (ev_call e) = true ->
+    t2 = [] /\ Forall (fun x => is_master_write (ev_call x) = false) t1 /\
+    exists h w, ev_call e = DcsSet PMaster (VHost h) /\ In w t1 /\ ev_call w = Sql h SSetWritable /\ ev_resp w = ROk.
+Proof. exact master_written_last. Qed.
+Print Assumptions C07_recorded_master_written_last.
+
+(* hence a manager that dies anywhere before the last call of the procedure leaves the recorded master as
+   it was: the successor finds the old master recorded and the request still pending *)
+Theorem C07_crash_prefix_keeps_recorded_master : forall cfg env sw mem tr o k,
+  runs (perform_switchover cfg env sw mem) tr o -> (k < length tr)%nat ->
+  Forall (fun x => is_master_write (ev_call x) = false) (firstn k tr).
+Proof. exact crash_prefix_keeps_master. Qed.
+Print Assumptions C07_crash_prefix_keeps_recorded_master.
+
+(* the procedure never records the outcome itself (that is the caller's FinishSwitchover, after it
+   returned): a crash inside it cannot leave a success record behind *)
+Theorem C07_procedure_never_records_success : forall cfg env sw mem tr o,
+  runs (perform_switchover cfg env sw mem) tr o -> Forall (fun e => forall v, ev_call e <> DcsSet PLastSwitch v) tr.
+Proof. exact switchover_never_records_success. Qed.
+Print Assumptions C07_procedure_never_records_success.
 
 (* the next manager acts only with the lock: C03_no_lock_no_action; it re-learns the state from the servers,
    not from the dead manager's memory: manager_gates starts from update_hosts_info and fresh cluster states *)
